@@ -144,7 +144,23 @@ fn judge_image(
         });
     };
     exec::quiet_panics(true);
+    if riders {
+        // C08 rider: the recovery itself is watched (what it renames and unlinks, judged against
+        // the manifest state of that moment, starting from the image as found on disk)
+        ex.c08 = crate::files::FileWatch::from_disk(dir);
+        fsx::install(dir, None);
+    }
     let opened = catch_unwind(AssertUnwindSafe(|| ex.open()));
+    if riders {
+        let recovery_rule = crate::files::check_recorded(&mut ex);
+        let _ = fsx::uninstall();
+        if let Some((class, detail)) = recovery_rule {
+            probes.hit("recovery_file_discipline_violations");
+            v("C08", format!("during-recovery:{class}"), detail);
+        } else {
+            probes.hit("recoveries_watched_for_file_discipline");
+        }
+    }
     match opened {
         Err(_) => {
             let p = exec::take_panic();
